@@ -185,12 +185,14 @@ HOPS = [
 
 def script(spec):
     lines, sid = schema.emit_schema(DECLS)
-    L = ['mkdir %s' % hx('spdir')]
+    L = ['mkdir %s' % hx('spdir'), 'mkdir %s' % hx('spdir0'), 'mkdir %s' % hx('spdir0/inc1.conf'), 'mkdir %s' % hx('spdir0/secinc.conf')]
     for name, content in spec['files'].items():
         L.append('mkfile %s %s' % (hx(('spdir/' if spec['sp'] else '') + name), hx(content)))
     L += lines
     L.append('init 0 %d %d' % (sid, spec['flags']))
     spline = 'add_searchpath 0 %s' % hx('spdir') if spec['sp'] else 'note nosp'
+    if spec['sp']:
+        L.append('add_searchpath 0 %s' % hx('spdir0'))      # searched first; holds directories named like two of the include files
     L.append(spline)
     if spec['kind'] == 'history':
         for k in spec['ops']:
